@@ -42,7 +42,7 @@ class MirrorLock:
         self.f.close()
 
 
-def build_mirror(extra_modules=None):
+def build_mirror(extra_modules=None, only_crate=None):
     """(Re)create the mirror from the working tree.  Returns a report dict."""
     os.makedirs(MIRROR, exist_ok=True)
     subprocess.run(['rsync', '-a', '--delete', '--exclude', 'target', '--exclude', '.git',
@@ -80,6 +80,9 @@ def build_mirror(extra_modules=None):
             f.write(src)
     # (ii) harness modules
     for crate in CRATES:
+        if only_crate and crate != only_crate:
+            continue    # harness modules are injected only into the crate under verification:
+                        # as a dependency it may be built with other cargo features
         hdir = os.path.join(KANI_DIR, crate)
         if not os.path.isdir(hdir):
             continue
@@ -142,6 +145,8 @@ def classify(desc, name):
 
 
 def run_harness(crate, features, harness, extra=None, timeout=None, playback=False):
+    if playback:
+        timeout = min(timeout or 600, 600)   # the trace-producing run is only worth a bounded wait
     cmd = cargo_kani_base(crate, features) + ['--harness', harness, '--exact']
     if extra:
         cmd += extra
@@ -319,7 +324,7 @@ mod verif_kani_playback {{
     }}
 }}
 '''
-    build_mirror(extra_modules=[(crate, srcfile, text)])
+    build_mirror(extra_modules=[(crate, srcfile, text)], only_crate=crate)
     env = dict(os.environ, CARGO_TARGET_DIR=PLAYBACK_TARGET)
     cmd = ['cargo', 'kani', 'playback', '-Z', 'concrete-playback', '-p', crate, '--lib'] + KFLAGS
     if features is not None:
